@@ -126,7 +126,8 @@ def get_exponentiated_qubit_operator_circuit(qubit_op, time=1., variational=Fals
     exp_pauli_word_gates = list()
     for pauli_word, coef in timed_pauli_words:
         if pauli_word:  # identity terms do not contribute to evolution outside of a phase
-            if abs(np.real(coef)) > 1.e-10:
+            # (a variational rotation is kept even when its current angle is zero: later parameter updates address it by position)
+            if abs(np.real(coef)) > 1.e-10 or variational:
                 exp_pauli_word_gates += exp_pauliword_to_gates(pauli_word,
                                                                np.real(coef),
                                                                variational=variational,
